@@ -4,7 +4,7 @@
    theorem, not axioms); the executable model's own float arithmetic (Round53) is validated against
    the hardware by the correspondence on every run. *)
 From GVL Require Import NList Wire Wrap.
-From GV_rtptime Require Import Round53 Model Proofs.
+From GV_rtptime Require Import Round53 Model Proofs Float.
 Open Scope Z_scope.
 
 (* pts_is_continuation: for any start value, any initial timestamp and any list of signed steps with
@@ -103,6 +103,42 @@ Theorem C15_rtptime_packet_ntp_within_tick_partial : forall (fr : Z -> Z),
   - sl - 2 * rate < (res - T0) * rate - dticks * second_ns < second_ns + sl + rate.
 Proof. exact packet_ntp_within_tick_partial. Qed.
 Print Assumptions C15_rtptime_packet_ntp_within_tick_partial.
+
+(* The contract on Encode's fraction is MET by the Round53 model of binary64 (exact quotient, one rounding to
+   53 bits ties-to-even, then math.Round): proved from the definitions of Round53.  Trusted: that Round53 is what
+   the hardware computes (validated bit for bit by the correspondence on every run). *)
+Theorem C15_rtptime_frac53_contract : forall n, 0 <= n < second_ns ->
+  0 <= frac53 n /\ Z.abs (frac53 n * second_ns - n * two32) <= frac_slack.
+Proof. exact frac53_contract. Qed.
+Print Assumptions C15_rtptime_frac53_contract.
+
+(* ntp_roundtrip for the model's Encode (no premise left): Decode(Encode t) in {t, t - 1 ns}, no carry *)
+Theorem C15_rtptime_ntp_roundtrip : forall t, 0 <= t < era1_ns ->
+  (decode (encode t) = t \/ decode (encode t) = t - 1) /\ encode t / two32 = t / second_ns + ntp_offset.
+Proof. exact ntp_roundtrip. Qed.
+Print Assumptions C15_rtptime_ntp_roundtrip.
+
+Theorem C15_rtptime_ntp_encode_decode : forall S f, ntp_offset <= S < two32 -> 0 <= f < two32 ->
+  Z.abs (encode (decode (S * two32 + f)) - (S * two32 + f)) <= 4.
+Proof. exact ntp_encode_decode. Qed.
+Print Assumptions C15_rtptime_ntp_encode_decode.
+
+(* packet_ntp_within_tick with Encode's contract discharged; what stays a premise is the contract of the
+   sender's RTP extrapolation tk (three float operations: Duration.Seconds() and the product) *)
+Theorem C15_rtptime_packet_ntp_within_tick_partial_tk : forall (tk : Z -> Z -> Z) (sl : Z), 0 <= sl ->
+  (forall delta rate, 0 <= delta -> 0 < rate -> delta * rate < two32 * second_ns ->
+     0 <= tk delta rate < two32 /\
+     tk delta rate * second_ns - sl <= delta * rate <= (tk delta rate + 1) * second_ns + sl) ->
+  forall rate r0 T0 delta dticks,
+  0 < rate < 2147483648 -> 0 <= r0 < two32 -> 0 <= T0 -> 0 <= delta -> T0 + delta < era1_ns ->
+  delta * rate < two32 * second_ns ->
+  -2147483648 <= dticks - tk delta rate < 2147483648 ->
+  let rtp := sr_rtp_with tk r0 delta rate in
+  let ntp := sr_ntp_with frac53 T0 delta in
+  let res := packet_ntp ntp rtp rate (w32 (r0 + dticks)) in
+  - sl - 2 * rate < (res - T0) * rate - dticks * second_ns < second_ns + sl + rate.
+Proof. exact packet_ntp_within_tick_tk. Qed.
+Print Assumptions C15_rtptime_packet_ntp_within_tick_partial_tk.
 
 (* ---- non-vacuity ---- *)
 (* the contracts are satisfiable: exact rounding to nearest / exact floor meet them *)
